@@ -776,3 +776,297 @@ Proof.
     destruct (search star ops (isnil rest) name); [apply IH; lia|reflexivity].
   - rewrite !(match_loop_bad cr _ name Hne Hs Hbad). reflexivity.
 Qed.
+
+(* ---- what '*' and '?' match ------------------------------------------------------------------ *)
+(* a pattern made of '*' only matches exactly the names without separator *)
+Theorem match_star_only cr name : path_match Linux cr [STAR] name = MVal (negb (contains_byte SLASH name)).
+Proof. reflexivity. Qed.
+
+Lemma pat_qmark : pat_parses [QMARK] [(false, [OAny])].
+Proof.
+  apply (@PP_cons [QMARK] false [QMARK] [] [OAny] []); [discriminate|reflexivity| |constructor].
+  constructor. constructor.
+Qed.
+
+(* '?' alone matches exactly the names made of one rune (as DecodeRune reads
+   it: an invalid byte counts for one) that is not the separator *)
+Theorem match_qmark_only cr name :
+  path_match Linux cr [QMARK] name = MVal true <->
+  exists c0 s, name = c0 :: s /\ c0 <> SLASH /\ skipn (snd (decode_rune name)) name = [].
+Proof.
+  rewrite (path_match_parses cr name pat_qmark). cbn [gmatch search ops_run]. unfold try_here. cbn [ops_run].
+  destruct name as [|c0 s]; cbn [op_run].
+  - split; [discriminate|]. intros (? & ? & ? & _). discriminate.
+  - destruct (N.eqb_spec c0 SLASH) as [->|Hne].
+    + split; [discriminate|]. intros (? & ? & [= <- <-] & H & _). congruence.
+    + unfold acc. cbn [negb]. rewrite orb_false_r.
+      destruct (skipn (snd (decode_rune (c0 :: s))) (c0 :: s)) as [|y r] eqn:E.
+      * split; [|reflexivity]. intros _. exists c0, s. auto.
+      * split; [discriminate|]. intros (? & ? & _ & _ & H). discriminate.
+Qed.
+
+(* in both matchers what a '*' absorbs is separator-free by construction; as a
+   consequence a pattern whose ops cannot match a separator (literals other
+   than '/', and '?') only matches names without separator, PROVIDED the rune
+   read by '?' has no '/' among its continuation bytes - which is how UTF-8
+   decoding works; proved here for one-byte runes (names below 0x80) *)
+Definition ascii (s : str) : Prop := forall c, In c s -> (c < 128)%N.
+
+Lemma decode_ascii c s : (c < 128)%N -> decode_rune (c :: s) = (c, 1).
+Proof. intros H. unfold decode_rune. apply N.ltb_lt in H. rewrite H. reflexivity. Qed.
+
+Lemma op_match_ascii o s t : ascii s -> op_match o s t -> exists c, s = c :: t.
+Proof.
+  intros Ha H. destruct H as [c s|c0 s Hne|neg rs c0 s E].
+  - eauto.
+  - rewrite decode_ascii by (apply Ha; left; reflexivity). cbn [snd skipn]. eauto.
+  - rewrite decode_ascii by (apply Ha; left; reflexivity). cbn [snd skipn]. eauto.
+Qed.
+
+Lemma ops_match_ascii ops s t : ascii s -> ops_match ops s t -> exists u, s = u ++ t /\ length u = length ops.
+Proof.
+  intros Ha H. induction H as [s|o ops s t u Ho _ IH].
+  - exists []. auto.
+  - destruct (op_match_ascii Ha Ho) as (c & ->).
+    destruct IH as (u' & -> & Hl); [intros y Hy; apply Ha; right; exact Hy|].
+    exists (c :: u'). cbn [app length]. auto.
+Qed.
+
+Definition op_nosep (o : op) : Prop :=
+  match o with OLit c => c <> SLASH | OAny => True | OClass _ _ => False end.
+
+Lemma sepfree_app (a b : str) : sepfree a -> sepfree b -> sepfree (a ++ b).
+Proof. intros Ha Hb x Hx. apply in_app_or in Hx as [Hx|Hx]; auto. Qed.
+
+Lemma ascii_app_r (a b : str) : ascii (a ++ b) -> ascii b.
+Proof. intros H c Hc. apply H. apply in_or_app. right. exact Hc. Qed.
+
+Lemma ops_match_nosep ops s t :
+  ascii s -> Forall op_nosep ops -> ops_match ops s t -> exists u, s = u ++ t /\ sepfree u.
+Proof.
+  intros Ha Hn H. induction H as [s|o ops s t u Ho _ IH].
+  - exists []. split; [reflexivity|intros ? []].
+  - inversion Hn as [|? ? Hno Hn']; subst.
+    destruct (op_match_ascii Ha Ho) as (c & ->).
+    destruct IH as (u' & -> & Hu); [intros y Hy; apply Ha; right; exact Hy|exact Hn'|].
+    exists (c :: u'). split; [reflexivity|].
+    assert (Hc : c <> SLASH).
+    { inversion Ho; subst; cbn [op_nosep] in Hno; auto; try contradiction. }
+    intros y [<-|Hy]; [rewrite sepL_eq; apply N.eqb_neq; exact Hc|apply Hu; exact Hy].
+Qed.
+
+Theorem pm_no_sep_partial cks name :
+  pm cks name -> ascii name -> Forall (fun ck : pchunk => Forall op_nosep (snd ck)) cks -> sepfree name.
+Proof.
+  induction 1 as [|star ops rest x s t _ Hx Hm _ IH]; intros Ha Hn; [intros ? []|].
+  inversion Hn as [|? ? Hno Hn']; subst. cbn [snd] in Hno.
+  pose proof (ascii_app_r _ _ Ha) as Has.
+  destruct (ops_match_nosep Has Hno Hm) as (u & -> & Hu).
+  apply sepfree_app; [exact Hx|]. apply sepfree_app; [exact Hu|].
+  apply IH; [apply (ascii_app_r _ _ Has)|exact Hn'].
+Qed.
+
+(* ---- the shape of what scanChunk returns ---------------------------------------------------- *)
+Lemma scan_len_stop : forall n p, length p <= n -> forall b i,
+  exists j, scan_len Linux p b i = i + j /\ j <= length p /\
+            (skipn j p = [] \/ exists r, skipn j p = STAR :: r).
+Proof.
+  induction n as [|n IH]; intros p Hp b i.
+  - destruct p; [|cbn in Hp; lia]. exists 0. cbn. auto.
+  - destruct p as [|c p']; [exists 0; cbn; auto|]. cbn [length] in Hp. cbn [scan_len].
+    assert (Hone : forall b', exists j, scan_len Linux p' b' (S i) = i + j /\ j <= length (c :: p') /\
+                                       (skipn j (c :: p') = [] \/ exists r, skipn j (c :: p') = STAR :: r)).
+    { intros b'. destruct (IH p' ltac:(lia) b' (S i)) as (j & E & Hj & Hs). exists (S j). cbn [length skipn].
+      split; [lia|]. split; [lia|exact Hs]. }
+    destruct (N.eqb c BSLASH).
+    + destruct p' as [|d p''].
+      * exists 1. cbn. split; [lia|]. auto.
+      * cbn [length] in Hp. destruct (IH p'' ltac:(lia) b (S (S i))) as (j & E & Hj & Hs).
+        exists (S (S j)). cbn [length skipn]. split; [lia|]. split; [lia|exact Hs].
+    + destruct (N.eqb c LBRACK); [apply Hone|]. destruct (N.eqb c RBRACK); [apply Hone|].
+      destruct (N.eqb c STAR) eqn:Es; [|apply Hone]. destruct b; [apply Hone|].
+      apply N.eqb_eq in Es. subst c. exists 0. cbn [skipn length]. split; [lia|]. split; [lia|]. right. eauto.
+Qed.
+
+Lemma strip_stars_shape p :
+  exists k, p = repeat STAR k ++ snd (strip_stars p) /\ fst (strip_stars p) = Nat.ltb 0 k.
+Proof.
+  induction p as [|c p IH]; [exists 0; auto|]. cbn [strip_stars].
+  destruct (N.eqb c STAR) eqn:E; cbn [fst snd].
+  - apply N.eqb_eq in E. subst c. destruct IH as (k & H1 & _). exists (S k). cbn [repeat app]. split; [f_equal; exact H1|reflexivity].
+  - exists 0. auto.
+Qed.
+
+(* pattern = '*'^k ++ chunk ++ rest ; star <-> k > 0 ; rest is empty or starts with '*' *)
+Theorem scan_chunk_shape pattern star chunk rest :
+  scan_chunk Linux pattern = (star, chunk, rest) ->
+  exists k, pattern = repeat STAR k ++ chunk ++ rest /\ star = Nat.ltb 0 k /\
+            (rest = [] \/ exists r, rest = STAR :: r).
+Proof.
+  unfold scan_chunk. intros [= <- <- <-]. destruct (strip_stars_shape pattern) as (k & Hp & Hs).
+  exists k. set (q := snd (strip_stars pattern)) in *. rewrite firstn_skipn. split; [exact Hp|]. split.
+  - rewrite <- Hs. destruct pattern as [|c p]; [destruct k; [reflexivity|discriminate]|].
+    cbn [strip_stars]. destruct (N.eqb c STAR); reflexivity.
+  - destruct (@scan_len_stop _ q (le_n _) false 0) as (j & E & _ & H). rewrite E. exact H.
+Qed.
+
+(* every chunk after the first is starred *)
+Definition chained (cks : list pchunk) : Prop :=
+  match cks with [] => True | _ :: rest => Forall (fun ck : pchunk => fst ck = true) rest end.
+
+Lemma pat_parses_starred pattern cks r :
+  pattern = STAR :: r -> pat_parses pattern cks -> Forall (fun ck : pchunk => fst ck = true) cks.
+Proof.
+  intros Hp H. revert r Hp. induction H as [|pattern star chunk rest ops cks Hne Hs Hc Hr IH]; intros r Hp; [discriminate|].
+  constructor.
+  - cbn [fst]. subst pattern. unfold scan_chunk in Hs. injection Hs as <- _ _. reflexivity.
+  - destruct (scan_chunk_shape Hs) as (_ & _ & _ & [->|(r' & ->)]).
+    + inversion Hr; [constructor|congruence].
+    + apply (IH r'). reflexivity.
+Qed.
+
+Lemma pat_parses_chained pattern cks : pat_parses pattern cks -> chained cks.
+Proof.
+  intros H. destruct H as [|pattern star chunk rest ops cks Hne Hs Hc Hr]; [exact I|]. cbn [chained].
+  destruct (scan_chunk_shape Hs) as (_ & _ & _ & [->|(r' & ->)]).
+  - inversion Hr; [constructor|congruence].
+  - apply (pat_parses_starred eq_refl Hr).
+Qed.
+
+(* ---- completeness w.r.t. the declarative matcher: partial ------------------------------------ *)
+(* [pm -> gm] does not hold in general (see [pm_not_gm] below).  It holds for
+   the names Glob hands to Match when they are plain ASCII: no separator, every
+   byte below 0x80 (then every op consumes exactly one byte and whatever lies
+   between two possible starts of a chunk can be absorbed by the next '*'). *)
+Lemma app_eq_split (A : Type) : forall (a b c d : list A),
+  a ++ b = c ++ d -> length a <= length c -> exists e, c = a ++ e /\ b = e ++ d.
+Proof.
+  induction a as [|x a IH]; intros b c d E Hl.
+  - exists c. auto.
+  - destruct c as [|y c]; [cbn in Hl; lia|]. cbn [app] in E. injection E as <- E.
+    destruct (IH b c d E) as (e & -> & ->); [cbn [length] in Hl; lia|]. exists e. auto.
+Qed.
+
+Lemma pm_prepend ops rest d t : sepfree d -> pm ((true, ops) :: rest) t -> pm ((true, ops) :: rest) (d ++ t).
+Proof.
+  intros Hd H. inversion H as [|star ops' rest' x s t' Hst Hx Hm Hp]; subst. rewrite app_assoc.
+  econstructor; eauto; [discriminate|]. apply sepfree_app; assumption.
+Qed.
+
+Lemma find_first_exists ops last : forall x s t,
+  sepfree x -> try_here ops last s = Some t -> exists t0, find_first ops last (x ++ s) = Some t0.
+Proof.
+  induction x as [|c x IH]; intros s t Hx Ht; rewrite find_first_unfold.
+  - cbn [app]. rewrite Ht. eauto.
+  - destruct (try_here ops last ((c :: x) ++ s)) as [t0|]; [eauto|]. cbn [app skip1].
+    assert (Ec : N.eqb c SLASH = false) by (rewrite <- sepL_eq; apply Hx; left; reflexivity).
+    rewrite Ec. apply (IH s t); [|exact Ht]. intros y Hy. apply Hx. right. exact Hy.
+Qed.
+
+Lemma sepfree_app_l (a b : str) : sepfree (a ++ b) -> sepfree a.
+Proof. intros H x Hx. apply H. apply in_or_app. left. exact Hx. Qed.
+Lemma sepfree_app_r (a b : str) : sepfree (a ++ b) -> sepfree b.
+Proof. intros H x Hx. apply H. apply in_or_app. right. exact Hx. Qed.
+
+Theorem pm_gm_partial : forall cks name,
+  chained cks -> ascii name -> sepfree name -> pm cks name -> gm cks name.
+Proof.
+  induction cks as [|[star ops] rest IH]; intros name Hch Ha Hsf Hpm.
+  { inversion Hpm. constructor. }
+  inversion Hpm as [|star' ops' rest' x s t Hst Hx Hm Hp]; subst.
+  assert (Hch' : chained rest).
+  { cbn [chained] in Hch. destruct rest as [|r1 rest']; [exact I|]. cbn [chained]. inversion Hch; assumption. }
+  pose proof (ascii_app_r _ _ Ha) as Has. pose proof (sepfree_app_r _ _ Hsf) as Hss.
+  destruct (ops_match_ascii Has Hm) as (u & Es & Hu).
+  assert (Hacc : accP rest t).
+  { destruct rest; [inversion Hp; left; reflexivity|right; discriminate]. }
+  assert (Hth : try_here ops (isnil rest) s = Some t) by (apply try_here_some; auto).
+  destruct star.
+  2:{ rewrite (Hst eq_refl) in *. apply (@GM_cons false ops rest [] s t); auto.
+      - intros x1 x2 t' E. destruct x1, x2; try discriminate. congruence.
+      - apply IH; auto; subst s; [apply (ascii_app_r _ _ Has)|apply (sepfree_app_r _ _ Hss)]. }
+  destruct (@find_first_exists ops (isnil rest) x s t Hx Hth) as (t0 & Hff).
+  destruct (find_first_some _ _ _ Hff) as (x0 & s0 & En & Hx0 & Ht0 & Hl).
+  pose proof Ht0 as Ht0'. apply try_here_some in Ht0' as (Hm0 & Hacc0).
+  assert (Has0 : ascii s0) by (apply (ascii_app_r x0); rewrite <- En; exact Ha).
+  assert (Hss0 : sepfree s0) by (apply (sepfree_app_r x0); rewrite <- En; exact Hsf).
+  destruct (ops_match_ascii Has0 Hm0) as (u0 & Es0 & Hu0).
+  assert (Hle : length x0 <= length x).
+  { destruct (Nat.le_gt_cases (length x0) (length x)) as [H|H]; [exact H|exfalso].
+    destruct (@app_eq_split _ x s x0 s0 En ltac:(lia)) as (e & -> & ->).
+    assert (He : e <> []) by (intros ->; rewrite app_nil_r in H; lia).
+    rewrite (Hl x e eq_refl He) in Hth. discriminate. }
+  destruct (@app_eq_split _ x0 s0 x s (eq_sym En) Hle) as (e & -> & Es0').
+  (* t0 = d ++ t *)
+  assert (Hd : exists d, t0 = d ++ t).
+  { rewrite Es0 in Es0'. rewrite Es in Es0'. rewrite app_assoc in Es0'.
+    destruct (@app_eq_split _ u0 t0 (e ++ u) t Es0') as (d & _ & ->); [rewrite app_length; lia|]. eauto. }
+  destruct Hd as (d & ->).
+  assert (Hsd : sepfree (d ++ t)) by (apply (sepfree_app_r u0); rewrite <- Es0; exact Hss0).
+  assert (Hpm0 : pm rest (d ++ t)).
+  { destruct rest as [|[st1 ops1] rest'].
+    - inversion Hp; subst. destruct Hacc0 as [E|E]; [|congruence]. rewrite E. constructor.
+    - cbn [chained] in Hch. inversion Hch as [|? ? Hs1 _]; subst. cbn [fst] in Hs1. subst st1.
+      apply pm_prepend; [apply (sepfree_app_l _ _ Hsd)|exact Hp]. }
+  rewrite En. apply (@GM_cons true ops rest x0 s0 (d ++ t)); auto.
+  - discriminate.
+  - intros x1 x2 t' E Hne Hm'. apply (proj1 (try_here_none ops rest (x2 ++ s0)) (Hl x1 x2 E Hne)). exact Hm'.
+  - apply IH; auto. apply (ascii_app_r u0). rewrite <- Es0. exact Has0.
+Qed.
+
+Theorem path_match_complete_partial cr pattern cks name :
+  pat_parses pattern cks -> ascii name -> sepfree name -> pm cks name ->
+  path_match Linux cr pattern name = MVal true.
+Proof.
+  intros Hp Ha Hs Hpm. apply path_match_true_iff. exists cks. split; [exact Hp|].
+  apply pm_gm_partial; auto. apply (pat_parses_chained Hp).
+Qed.
+
+(* ---- examples (non-vacuity) and the gap ------------------------------------------------------- *)
+(* "*a[^x]*b" : chunks  * 'a' [^x]   and   * 'b' *)
+Definition ex_pat : str := [42; 97; 91; 94; 120; 93; 42; 98]%N.
+Definition ex_cks : list pchunk := [(true, [OLit 97%N; OClass true [(120%N, 120%N)]]); (true, [OLit 98%N])].
+
+Lemma ex_parses : pat_parses ex_pat ex_cks.
+Proof.
+  apply (@PP_cons ex_pat true [97; 91; 94; 120; 93]%N [42; 98]%N [OLit 97%N; OClass true [(120%N, 120%N)]] [(true, [OLit 98%N])]);
+    [discriminate|reflexivity| |].
+  - apply CK_lit; try discriminate. apply (@CK_class_neg [120; 93]%N [(120%N, 120%N)] [] []); [|constructor].
+    apply (@CP_single false [120; 93]%N 120%N [93]%N [] []); [reflexivity|discriminate|constructor].
+  - apply (@PP_cons [42; 98]%N true [98]%N [] [OLit 98%N] []); [discriminate|reflexivity| |constructor].
+    apply CK_lit; try discriminate. constructor.
+Qed.
+
+(* "xab" matches, both ways *)
+Example match_example_true :
+  path_match Linux false ex_pat [120; 97; 98; 99; 98]%N = MVal true /\ gm ex_cks [120; 97; 98; 99; 98]%N.
+Proof.
+  split; [reflexivity|]. apply gmatch_gm. reflexivity.
+Qed.
+
+(* the gap: on "aaa/b" the declarative matcher succeeds ('*' = "aa", 'a', [^x] = '/',
+   '*' = "", 'b') but the leftmost commitment ("a" at 0) makes Match - avfs' and
+   path/filepath's alike - answer false *)
+Example pm_not_gm :
+  pm ex_cks [97; 97; 97; 47; 98]%N /\ ~ gm ex_cks [97; 97; 97; 47; 98]%N
+  /\ path_match Linux false ex_pat [97; 97; 97; 47; 98]%N = MVal false
+  /\ path_match Linux true ex_pat [97; 97; 97; 47; 98]%N = MVal false.
+Proof.
+  split; [|split; [|split; reflexivity]].
+  - apply (@PM_cons true _ _ [97; 97]%N [97; 47; 98]%N [98]%N); [discriminate| | |].
+    + intros y [<-|[<-|[]]]; reflexivity.
+    + apply (@OMS_cons _ _ _ [47; 98]%N); [constructor|].
+      apply (@OMS_cons _ _ _ [98]%N); [|constructor].
+      apply (@OM_class true [(120%N, 120%N)] 47%N [98]%N). reflexivity.
+    + apply (@PM_cons true _ _ [] [98]%N []); [discriminate|intros ? []| |constructor].
+      apply (@OMS_cons _ _ _ []); constructor.
+  - intros H. apply gmatch_gm in H. discriminate.
+Qed.
+
+(* malformed patterns: "[a" is bad whatever the name; "a[" after a failed chunk
+   is reported only with the rest of the pattern validated *)
+Example match_example_bad :
+  path_match Linux false [91; 97]%N [97]%N = MBad
+  /\ path_match Linux false [98; 42; 91]%N [97]%N = MVal false
+  /\ path_match Linux true [98; 42; 91]%N [97]%N = MBad.
+Proof. repeat split; reflexivity. Qed.
